@@ -868,7 +868,7 @@ Qed.
 
 (* the mountings in which PATH_INFO goes through the router (which rejects an undecodable one) or is decoded
    by the view itself; in the remaining one the view is handed request.subpath directly *)
-Definition routed_mount (m : N) : Prop := m = 0 \/ m = 1 \/ m = 2 \/ m = 4 \/ m = 5.
+Definition routed_mount (m : N) : Prop := m = 0 \/ m = 1 \/ m = 2 \/ m = 4 \/ m = 5 \/ m = 6.
 Definition decodable (c : config) (rq : request) : Prop :=
   routed_mount (c_mount c) \/ decode (unquote (r_raw rq)) <> None.
 
@@ -912,10 +912,10 @@ Proof.
     destruct (Hgiven s Hdec E) as [H1 H2]. split; [assumption|].
     destruct (forallb seg_ok (r_subpath rq)); exact H2. }
   unfold run_request, route_prefix in H. unfold spec_response, spec_segments, spec_prefix.
-  (* goals that remain after the default mounting is solved: 0, 5, 4, 2, 1 *)
+  (* goals that remain after the default mounting is solved: 0, 5, 6, 4, 2, 1 *)
   revert H Hdefault. unfold routed_mount.
-  destruct (c_mount c) as [|[[q|[q|q|]|]|[q|[q|q|]|]|]]; intros H Hdefault;
-    try (apply Hdefault; [intros [E|[E|[E|[E|E]]]]; discriminate E|exact H]).
+  destruct (c_mount c) as [|[[q|[q|q|]|]|[[q|q|]|[q|q|]|]|]]; intros H Hdefault;
+    try (apply Hdefault; [intros [E|[E|[E|[E|[E|E]]]]]; discriminate E|exact H]).
   - (* 0: add_static_view *)
     destruct (decode (unquote (r_raw rq))) as [p0|] eqn:Hdec; [|apply (Hrej 1); auto].
     change (text_eqb static_route_star traverser_subpath_key) with true in H.
@@ -924,18 +924,52 @@ Proof.
     split; [assumption|]. cbv beta iota. cbv beta iota in H2. revert H2.
     destruct (strip_prefix _ _); try exact (fun x => x).
     intros x. refine (eq_trans (f_equal (conforms r) (tail_or_404_eq c rq fs p0 _)) x).
-  - (* 5: a view named c_name found by traversal *)
+  - (* 5: a view named c_name found by traversal, possibly below a virtual root *)
     cbv iota in H. cbv iota.
     destruct (decode (unquote (r_raw rq))) as [p0|] eqn:Hdec; [|apply (Hrej 1); auto].
     change (split_path_info_f (match p0 with [] => [slash] | _ => p0 end))
       with (split_path_info (match p0 with [] => [slash] | _ => p0 end)) in H.
     rewrite spi_default in H. cbv beta iota.
-    destruct (split_path_info p0) as [|seg rest].
+    assert (Htail : forall vt,
+      match vt ++ split_path_info p0 with
+      | [] => ret (R404 0, fm)
+      | seg :: rest => if text_eqb (traversal_view_name seg) (c_name c)
+                       then serve c rq (unquote (r_raw rq)) fs fm rest else ret (R404 0, fm)
+      end = ((r, fm'), log) ->
+      fm_exact c fs fm' /\
+      conforms r match (match vt ++ split_path_info p0 with
+                        | [] => Some None
+                        | seg :: segs => if text_eqb (spec_view_name seg) (c_name c)
+                                         then (if forallb seg_ok segs then Some (Some segs) else Some None)
+                                         else Some None
+                        end) with
+                 | None => SReject
+                 | Some None => S404
+                 | Some (Some segs) => spec_tail c rq fs (Some p0) segs
+                 end = true).
+    { intros vt E. destruct (vt ++ split_path_info p0) as [|seg rest].
+      { unfold ret in E. injection E as <- <- _. split; [assumption|reflexivity]. }
+      rewrite view_name_eq in E. destruct (text_eqb (spec_view_name seg) (c_name c)).
+      + pose proof (serve_conform c rq _ fs fm _ p0 r fm' log Hwf Hroot Hhost Hfm Hdec E) as [H1 H2].
+        split; [assumption|]. refine (eq_trans (f_equal (conforms r) (tail_or_404_eq c rq fs p0 _)) H2).
+      + unfold ret in E. injection E as <- <- _. split; [assumption|reflexivity]. }
+    unfold vroot_tuple in H. destruct (c_vroot c) as [v|].
+    + destruct (decode v) as [u|]; [|apply (Hrej 2); auto].
+      change (split_path_info_f u) with (split_path_info u) in H. exact (Htail _ H).
+    + exact (Htail [] H).
+  - (* 6: route with a '{subpath}' placeholder, default regex *)
+    cbv iota in H. cbv iota.
+    destruct (decode (unquote (r_raw rq))) as [p0|] eqn:Hdec; [|apply (Hrej 1); auto].
+    unfold route_match_seg, segment_capture in H. cbv beta iota in H. cbv beta iota.
+    destruct (strip_prefix _ _) as [rest|].
+    2:{ unfold ret in H. injection H as <- <- _. split; [assumption|reflexivity]. }
+    destruct rest as [|x rest'].
     { unfold ret in H. injection H as <- <- _. split; [assumption|reflexivity]. }
-    rewrite view_name_eq in H. destruct (text_eqb (spec_view_name seg) (c_name c)).
-    + pose proof (serve_conform c rq _ fs fm _ p0 r fm' log Hwf Hroot Hhost Hfm Hdec H) as [H1 H2].
-      split; [assumption|]. refine (eq_trans (f_equal (conforms r) (tail_or_404_eq c rq fs p0 _)) H2).
-    + unfold ret in H. injection H as <- <- _. split; [assumption|reflexivity].
+    cbv iota in H. cbv iota. destruct (memN slash (x :: rest')).
+    { unfold ret in H. injection H as <- <- _. split; [assumption|reflexivity]. }
+    change (traverser_tuple (x :: rest')) with (@Datatypes.inr resp _ (split_path_info (x :: rest'))) in H. cbv iota in H.
+    pose proof (serve_conform c rq _ fs fm _ p0 r fm' log Hwf Hroot Hhost Hfm Hdec H) as [H1 H2].
+    split; [assumption|]. refine (eq_trans (f_equal (conforms r) (tail_or_404_eq c rq fs p0 _)) H2).
   - (* 4: route with a '{subpath:.*}' placeholder *)
     cbv iota in H. cbv iota.
     destruct (decode (unquote (r_raw rq))) as [p0|] eqn:Hdec; [|apply (Hrej 1); auto].
@@ -1002,14 +1036,18 @@ Lemma run_request_indep c fs fm rq :
   fm_exact c fs (snd (fst (run_request c fs fm rq))).
 Proof.
   intros Hfm. unfold run_request, serve_path_info.
-  destruct (c_mount c) as [|[[q|[q|q|]|]|[q|[q|q|]|]|]]; try (apply serve_indep; assumption).
+  destruct (c_mount c) as [|[[q|[q|q|]|]|[[q|q|]|[q|q|]|]|]]; try (apply serve_indep; assumption).
   - destruct (decode _); [|split; [reflexivity|assumption]].
     destruct (route_match _ _); [|split; [reflexivity|assumption]].
     destruct static_use_subpath; [apply serve_indep; assumption|].
     destruct (view_tuple _); [split; [reflexivity|assumption]|apply serve_indep; assumption].
   - cbv iota. destruct (decode _); [|split; [reflexivity|assumption]].
-    destruct (split_path_info_f _); [split; [reflexivity|assumption]|].
+    destruct (vroot_tuple c) as [r0|vt]; [split; [reflexivity|assumption]|].
+    destruct (vt ++ split_path_info_f _); [split; [reflexivity|assumption]|].
     destruct (text_eqb _ _); [apply serve_indep; assumption|split; [reflexivity|assumption]].
+  - cbv iota. destruct (decode _); [|split; [reflexivity|assumption]].
+    destruct (route_match_seg _ _) as [rest|]; [|split; [reflexivity|assumption]].
+    destruct (traverser_tuple rest); [split; [reflexivity|assumption]|apply serve_indep; assumption].
   - cbv iota. destruct (decode _); [|split; [reflexivity|assumption]].
     destruct (route_match_ph _ _) as [rest|]; [|split; [reflexivity|assumption]].
     destruct (traverser_tuple rest); [split; [reflexivity|assumption]|apply serve_indep; assumption].
@@ -1063,11 +1101,23 @@ Proof.
   { intros pi. unfold view_tuple. destruct (decode pi); [|apply Hexc].
     destruct view_decodes_again; [|apply serve_variant_ok; assumption].
     destruct (latin1 _); [|apply Hexc]. destruct (decode _); [apply serve_variant_ok; assumption|apply Hexc]. }
-  destruct (c_mount c) as [|[[q|[q|q|]|]|[q|[q|q|]|]|]]; try (apply serve_variant_ok; assumption).
+  destruct (c_mount c) as [|[[q|[q|q|]|]|[[q|q|]|[q|q|]|]|]]; try (apply serve_variant_ok; assumption).
   - destruct (decode _); [|apply Hexc]. destruct (route_match _ _); [|apply H404].
     destruct static_use_subpath; [apply serve_variant_ok; assumption|apply Hvt].
-  - cbv iota. destruct (decode _); [|apply Hexc]. destruct (split_path_info_f _); [apply H404|].
-    destruct (text_eqb _ _); [apply serve_variant_ok; assumption|apply H404].
+  - cbv iota. destruct (decode _); [|apply Hexc].
+    assert (Htail : forall vt pp, variant_ok c fs rq (fst (fst (
+              match vt ++ split_path_info_f pp with
+              | [] => ret (R404 0, fm)
+              | seg :: rest => if text_eqb (traversal_view_name seg) (c_name c)
+                               then serve c rq (unquote (r_raw rq)) fs fm rest else ret (R404 0, fm)
+              end)))).
+    { intros vt pp. destruct (vt ++ split_path_info_f pp); [apply H404|].
+      destruct (text_eqb _ _); [apply serve_variant_ok; assumption|apply H404]. }
+    unfold vroot_tuple. destruct (c_vroot c) as [v|]; [|apply Htail].
+    destruct (decode v); [apply Htail|apply Hexc].
+  - cbv iota. destruct (decode _); [|apply Hexc]. destruct (route_match_seg _ _) as [rest|]; [|apply H404].
+    unfold traverser_tuple. destruct traverser_str_decodes_again; [|apply serve_variant_ok; assumption].
+    destruct (latin1 _); [|apply Hexc]. destruct (decode _); [apply serve_variant_ok; assumption|apply Hexc].
   - cbv iota. destruct (decode _); [|apply Hexc]. destruct (route_match_ph _ _) as [rest|]; [|apply H404].
     unfold traverser_tuple. destruct traverser_str_decodes_again; [|apply serve_variant_ok; assumption].
     destruct (latin1 _); [|apply Hexc]. destruct (decode _); [apply serve_variant_ok; assumption|apply Hexc].
@@ -1196,14 +1246,18 @@ Proof.
   intros Hwf Hroot Hfm H. unfold run_request, serve_path_info in H.
   assert (Hret : forall r0, ret (r0, fm) = ((r, fm'), log) -> contained c log = true /\ fm_ok c fm').
   { intros r0 E. unfold ret in E. injection E as <- <- <-. split; [reflexivity|assumption]. }
-  destruct (c_mount c) as [|[[q|[q|q|]|]|[q|[q|q|]|]|]]; try (eapply serve_contained_g; eassumption).
+  destruct (c_mount c) as [|[[q|[q|q|]|]|[[q|q|]|[q|q|]|]|]]; try (eapply serve_contained_g; eassumption).
   - destruct (decode (unquote (r_raw rq))) as [p0|]; [|eapply Hret; eassumption].
     destruct (route_match _ _) as [rest|]; [|eapply Hret; eassumption].
     destruct static_use_subpath; [eapply serve_contained_g; eassumption|].
     destruct (view_tuple _); [eapply Hret; eassumption|eapply serve_contained_g; eassumption].
   - cbv iota in H. destruct (decode (unquote (r_raw rq))) as [p0|]; [|eapply Hret; eassumption].
-    destruct (split_path_info_f _) as [|seg rest]; [eapply Hret; eassumption|].
+    destruct (vroot_tuple c) as [r0|vt]; [eapply Hret; eassumption|].
+    destruct (vt ++ split_path_info_f _) as [|seg rest]; [eapply Hret; eassumption|].
     destruct (text_eqb _ _); [eapply serve_contained_g; eassumption|eapply Hret; eassumption].
+  - cbv iota in H. destruct (decode (unquote (r_raw rq))) as [p0|]; [|eapply Hret; eassumption].
+    destruct (route_match_seg _ _) as [rest|]; [|eapply Hret; eassumption].
+    destruct (traverser_tuple rest) as [r0|t]; [eapply Hret; eassumption|eapply serve_contained_g; eassumption].
   - cbv iota in H. destruct (decode (unquote (r_raw rq))) as [p0|]; [|eapply Hret; eassumption].
     destruct (route_match_ph _ _) as [rest|]; [|eapply Hret; eassumption].
     destruct (traverser_tuple rest) as [r0|t]; [eapply Hret; eassumption|eapply serve_contained_g; eassumption].
@@ -1230,7 +1284,7 @@ Proof. intros. apply run_requests_contained_g; [assumption|assumption|apply fm_o
 (* ------------------------------------------------------------ examples *)
 (* package root: module directory "/m", docroot "s/" (trailing slash), index "i" *)
 Definition ex_pkg (mount : N) : config :=
-  mkConfig mount [115] true [115; 47] [47; 109] [105] [[103]] [([46; 103], [103])] [104] [47] false.
+  mkConfig mount [115] true [115; 47] [47; 109] [105] [[103]] [([46; 103], [103])] [104] [47] false None.
 Definition ex_pkg_fs : fsys :=
   [ ([[109]], EDir 0); ([[109]; [115]], EDir 0); ([[109]; [115]; [105]], EFile 2 [4; 5]);
     ([[109]; [111]], EFile 1 [8]) ].
